@@ -214,6 +214,30 @@ theorem teardown_never_stuck (G T : Nat) (b : Bool) (evs : List Ev) (s : State) 
     | sending =>
       exact ⟨.ctxDone i, _, by simp only [step, updKid, hi, hs.1, hcw, or_true, and_self, if_true]; rfl⟩
 
+/-- **The final wait terminates.**  From the final `wg.Wait()` on, every possible continuation is short: at most three
+    steps per unfinished `startWait` goroutine plus the return itself.  Together with `teardown_never_stuck` (some step
+    is always enabled until the return): `prefork` returns after the kill loop, whatever the children do. -/
+theorem teardown_terminates (G T : Nat) (b : Bool) (evs : List Ev) (s : State) (e : Err)
+    (hr : run (State.init G T b) evs = some s) (hpc : s.pc = .finalWait e) (more : List Ev) (s' : State)
+    (hmore : run s more = some s') : more.length ≤ 3 * s.kids.length + 1 := by
+  have hb := final_run_bounded more s s' e (reach_inv hr) hpc hmore
+  have hmu : mu s ≤ 3 * s.kids.length := by
+    unfold mu
+    generalize s.kids = l
+    induction l with
+    | nil => simp
+    | cons c l ih =>
+      have hc : wmu c ≤ 3 := by unfold wmu; split <;> omega
+      simp only [Wsum.wsum_cons, List.length_cons]
+      omega
+  omega
+
+/-- After `prefork` returned nothing it started can move: every event of the model is disabled (no wait goroutine
+    outlives the call, no child is left to exit). -/
+theorem nothing_outlives_prefork (G T : Nat) (b : Bool) (evs : List Ev) (s : State) (e : Err)
+    (hr : run (State.init G T b) evs = some s) (hret : s.pc = .returned e) (ev : Ev) : step s ev = none :=
+  returned_no_step (reach_inv hr) hret ev
+
 /-! ### non-vacuity -/
 
 /-- G = 2, T = 1, no backoff: both children start, child 0 crashes and is replaced, child 1 crashes → ErrOverRecovery;
@@ -257,5 +281,9 @@ example : ((run (State.init 1 0 true)
 example : ((run (State.init 2 1 false)
     [.spawnOk, .hookErr, .cancel, .sigterm, .childExit 0, .waitReturns 0, .ctxDone 0, .graceDone]).map fun s =>
     (s.pc, s.kids.map fun c => (c.proc, c.termed))) = some (.returned .hook, [(.reaped, true)]) := by decide
+
+/-- the bound of `teardown_terminates` is met by a run: one unreaped killed child needs `waitReturns`, `ctxDone`, `finalDone` -/
+example : (run (State.init 2 1 false) (crashTwice.take 19)).map (·.pc) = some (.finalWait .overRecovery) := by decide
+example : ((run (State.init 2 1 false) crashTwice).bind fun s => step s (.childExit 2)) = none := by decide
 
 end Fh.Props.C39
